@@ -558,6 +558,14 @@ def rule_effects(ctx: Ctx, repo: Repo) -> None:
                 seen_t.add((where, construct))
                 cl.ops += 1
                 ctx.violate("R-C03.1", where, construct, f"{how} on a value of the traced program can run user-defined code (reached with: {ident}; {what})", node=node)
+        # R-C03.8: the look-up comes back - a `__wrapped__` chain that never reaches None (a function that is its own
+        # __wrapped__, a proxy that answers every attribute with a proxy) must not keep the profile callback, and with it the traced
+        # program, in a loop; the function is then found where it is (inspect.unwrap gives such chains up with ValueError)
+        for what, want, kind, res in LM.endless_results(repo):
+            ok = kind == "return" and res == want
+            got = "does not terminate" if kind == "hang" else (f"raises {res}" if kind == "raise" else ("finds the function" if res == want else f"returns {str(res)[:60]}"))
+            ctx.check(ok, "R-C03.8", code_selector(repo, ctx).fq, "the function look-up terminates on `__wrapped__` chains that never end, and still finds the function",
+                      construct=f"{what}: the look-up {got}")
         ctx.count("R-C03.1:look-up worlds with hook-carrying objects", len(hostile))
         ctx.floor("R-C03.1", "look-up worlds with hook-carrying objects", len(hostile), 5)
     ctx.count("R-C03.1:functions with program values", analysed)
